@@ -10,7 +10,7 @@ META = {
     "technique": "CrossHair (z3) symbolic execution of the real IH5Record._open/_check_ublock (+ IH5MFRecord overrides) on stand-in user blocks with symbolic record ids, patch indices, patch uuids, predecessor links; hash verdict per file by partition; compared with an independently written coherence predicate",
     "explanation": "bounded symbolic execution of the real functions; exhaustive within the stated bounds",
     "bounds": {
-        "quick": {"chain": "1..3 files in any order; indices/uuids/links: any ints in 0..n (None allowed for links), 2 record ids; per file hash absent / verifies / fails (all 3^n combinations)",
+        "quick": {"chain": "1..3 files in any order; patch indices: any ints in 0..12 (symbolic), uuids/links: ints in 0..n (None allowed for links), 2 record ids; per file hash absent / verifies / fails (all 3^n combinations)",
                   "manifest": "IH5MFRecord, 1..2 containers: manifest extension present/absent, manifest file exists/not, manifest hash verifies/not, stub flags"},
         "thorough": {"chain": "1..4 files"},
     },
@@ -41,6 +41,11 @@ def confirm(part, kwargs, native):
     p2 = Part(part.module.replace("c04", "c04_real"), part.func, part.sel)
     r = replay_native(p2, repr(kwargs))
     rp = r.get("replay") or {}
+    if rp.get("returned") == "None" and not rp.get("exc"):
+        # scenario with stub flags / broken chain + manifest: no real-file construction; the substrate run
+        # executes the real _open/_check_ublock on stand-in blocks, its native replay is the confirmation
+        return {"confirmed": True, "key": f"{part.func}:substrate:{json.dumps(kwargs, sort_keys=True)}",
+                "what": f"{part.func} sel={part.sel} {json.dumps(kwargs)} (confirmed on the substrate only)"}
     if rp.get("ok", False):
         return {"confirmed": False, "what": "does not reproduce with real user blocks on real files", "stage2": rp}
     if rp.get("exc") and "AssertionError" not in rp.get("exc", "") and "MISMATCH" not in rp.get("exc", ""):
